@@ -62,6 +62,12 @@ def run(prog, R):
     cg = prog.callgraph()
     callers = {f: sorted(k for k, v in cg.items() if f in v) for f in (ITEM, STMT)}
     want = {ITEM: ["oq3_parser::grammar::items::source_file_contents"], STMT: ["oq3_parser::grammar::expressions::expr_block_statements", "oq3_parser::grammar::items::block_or_statement"]}
+    # the file-level loop (first statement parsed by `item`, which is stricter about `;`) is used for the file only:
+    # a block body parsed through it would treat its leading statements like the head of a file
+    SFC = "oq3_parser::grammar::items::source_file_contents"
+    sfc_callers = sorted(k for k, v in cg.items() if SFC in v)
+    R.ob("C16.2-statement-loops", "source_file_contents", sfc_callers == ["oq3_parser::grammar::entry::top::source_file"], prog.body(SFC).at if prog.body(SFC) else "",
+         f"callers of source_file_contents: {[short(x) for x in sfc_callers]} (expected only entry::top::source_file)")
     for f in (ITEM, STMT):
         R.ob("C16.2-statement-loops", short(f), callers[f] == want[f], prog.body(f).at, f"callers of {short(f)}: {[short(x) for x in callers[f]]} (expected {[short(x) for x in want[f]]})")
     # the statement loops themselves parse nothing: whatever they consumed outside item/stmt would be parsed by position
@@ -161,7 +167,7 @@ def run(prog, R):
         R.ob("C16.6-no-leading-trivia-attachment", "n_attached_trivias", not bad, nb_.at,
              f"0 for all {len(resolved)} node kinds the grammar completes (non-zero only for {nz})" if not bad else
              f"leading trivia can be attached to nodes of kind {bad}: a comment that ends the previous statement's line becomes part of this statement's text in a sequence, while the statement parsed on its own does not contain it")
-    R.premises(prog, "C16.0-line-tokens-premise", ["C15:C15.4-", "C15:C15.2-keyword-prefix", "C01:C01.2-step-counter"], "statements on separate lines stay separate tokens (line-oriented tokens end at the line feed, C15.4 / C15.2) and the parser's look-ahead budget is per token, not per input (C01.2), so that a long sequence of clean statements parses like its parts")
+    R.premises(prog, "C16.0-line-tokens-premise", ["C15:C15.4-", "C15:C15.2-keyword-prefix", "C01:C01.2-step-counter", "C01:C01.6-narrowing"], "statements on separate lines stay separate tokens (line-oriented tokens end at the line feed, C15.4 / C15.2) and the parser's look-ahead budget is per token, not per input (C01.2), so that a long sequence of clean statements parses like its parts")
     # ---- C16.5 an assignment statement that has consumed its terminating semicolon ends there: in expr_bp no path
     # from `p.expect(SEMICOLON)` (statement-level assignment) leads back to the operator loop's `current_op`
     eb = prog.body("oq3_parser::grammar::expressions::expr_bp")
